@@ -1231,3 +1231,100 @@ def oracle_refine(line, out):
             if not any(abs(p - truth) <= 200 for p, h in got):
                 return f"no seed within 200 bp of the true diagonal {truth}: seeds {[p for p, h in got]}"
     return None
+
+
+def _ideal_seq(pos, res, r, start=0):
+    """the blurred bit vector of a label list whose window starts at `start` and ends with the last label (C16)"""
+    pos = [p for p in pos if p >= start]
+    if not pos:
+        return []
+    n = (pos[-1] - start) // res + 1
+    v = _ideal_bits(pos, res, start, n)
+    return [1 if any(v[j] for j in range(max(0, i - r), min(n, i + r + 1))) else 0 for i in range(n)]
+
+
+def oracle_primary(line, out):
+    """the primary seeding stage judged against exact rational arithmetic (C06 / C16): every reported peak is the
+    centre of a bin whose normalised correlation is a (non-strict) local maximum of at least 3/4 of the global
+    maximum with the reported height, peaks keep the minimum distance, at most peaksCount are kept, the global
+    maximum is reported, and an isolated strict local maximum above the threshold is only left out when a reported
+    peak within the minimum distance is at least as high or when peaksCount higher ones were kept"""
+    from fractions import Fraction
+    op, kv = kv_of(line)
+    res, r, mpd, count = int(kv["res"]), int(kv["blur"]), int(kv["mpd"]), int(kv["count"])
+    a, rlen, c, d = kv["REF"].split(":")
+    R = [int(t) for t in d.split(",")]
+    a, qlen, c, d = kv["QRY"].split(":")
+    Q = [int(t) for t in d.split(",")]
+    rlen, qlen = int(rlen), int(qlen)
+    if out.startswith("ERR"):
+        return f"exception {out}" if mpd >= res else None
+    rs = _ideal_seq(R, res, r)
+    qs = _ideal_seq(Q, res, r)
+    if kv["rev"] == "1":
+        qs = qs[::-1]
+    if qlen > rlen or len(qs) > len(rs):
+        return None if out == "EMPTY" else "a query longer than the reference (or than its labelled part) got primary peaks"
+    if out == "EMPTY":
+        return "no primary correlation although the query fits the reference"
+    n = len(rs) - len(qs) + 1
+    head, _, body = out.partition(" ")
+    if int(head[2:]) != n:
+        return f"correlation has {head[2:]} lags, expected {n}"
+    s = sum(qs)
+    cs = [sum(x * y for x, y in zip(rs[k:k + len(qs)], qs)) for k in range(n)]
+    ws = [sum(rs[k:k + len(qs)]) for k in range(n)]
+    h = [Fraction(2 * cs[k], ws[k] + s) for k in range(n)]
+    mx = max(h)
+    eps = Fraction(1, 10 ** 9)
+    adj = -(-res // 2) - 1
+    dist = -(-mpd // res)
+    got = []
+    for e in [t for t in body.split(",") if t]:
+        p, hh, sc = e.split(":")
+        p = int(p)
+        if (p - adj) % res != 0:
+            return f"peak position {p} is not a bin centre"
+        k = (p - adj) // res
+        if not (1 <= k <= n - 2):
+            return f"peak at lag {k} outside the interior of the correlation (0..{n - 1})"
+        if abs(Fraction(float(hh)) - h[k]) > eps:
+            return f"peak height {hh} at lag {k} is not the normalised correlation {float(h[k])}"
+        if h[k] < Fraction(3, 4) * mx - eps:
+            return f"peak at lag {k} is below 3/4 of the maximum"
+        if h[k] < h[k - 1] - eps or h[k] < h[k + 1] - eps:
+            return f"lag {k} is not a local maximum of the normalised correlation"
+        got.append(k)
+    if len(got) > count:
+        return f"{len(got)} peaks kept, peaksCount is {count}"
+    for i in range(len(got)):
+        for j in range(i + 1, len(got)):
+            if abs(got[i] - got[j]) < dist:
+                return f"peaks at lags {got[i]} and {got[j]} are closer than minPeakDistance"
+    # completeness
+    strict = [k for k in range(1, n - 1) if h[k] > h[k - 1] + eps and h[k] > h[k + 1] + eps and h[k] >= Fraction(3, 4) * mx + eps]
+    for k in strict:
+        if k in got:
+            continue
+        if any(abs(k - g) < dist and h[g] >= h[k] - eps for g in got):
+            continue
+        # a higher peak (reported or not) within the distance may have suppressed it before being suppressed itself
+        if any(abs(k - j) < dist and h[j] >= h[k] - eps for j in range(max(0, k - dist + 1), min(n, k + dist)) if j != k):
+            continue
+        if len(got) == count and all(h[g] >= h[k] - eps for g in got):
+            continue
+        return f"the local maximum at lag {k} (height {float(h[k]):.6f}, maximum {float(mx):.6f}) is not reported: peaks at lags {got}"
+    if mx > 0:
+        tops = [k for k in range(1, n - 1) if h[k] == mx]
+        edge = h[0] == mx or h[n - 1] == mx
+        if tops and not edge and not any(h[g] >= mx - eps for g in got):
+            # plateaus touching an end of the array are not peaks for scipy
+            l = tops[0]
+            while l > 0 and h[l - 1] == mx:
+                l -= 1
+            rr = tops[0]
+            while rr < n - 1 and h[rr + 1] == mx:
+                rr += 1
+            if l > 0 and rr < n - 1 and all(h[k] == mx for k in range(l, rr + 1)):
+                return f"the global maximum (lag {tops[0]}) is not among the reported peaks at lags {got}"
+    return None
